@@ -77,6 +77,15 @@ def leaderPut (l : Leader) (r : Region) : Leader × Option Msg :=
     ({ l with cache := putRegion l.cache r, hist := record l.hist r false },
      some { start := l.hist.index, regions := [r.md], stats := [r.stat], leaders := [wireLeader r] })
 
+/-- `RunServer` woken up with several changes pending in its channel: they are recorded one after the other and
+    sent as ONE message (`requests/stats/leaders` get one entry per change, also for a region reported twice),
+    start index = the index of the first.  `ms` = the messages the changes would make one by one. -/
+def mergeMsgs : List Msg → Option Msg
+  | [] => none
+  | m :: ms =>
+    some { start := m.start, regions := (m :: ms).flatMap (·.regions), stats := (m :: ms).flatMap (·.stats),
+           leaders := (m :: ms).flatMap (·.leaders) }
+
 /-! follower -/
 
 /-- positional pairing of the receive loop:
